@@ -711,6 +711,119 @@ def gen_import_set(r):
 
 
 # ------------------------------------------------------------------------------------------------
+# family: syntactically valid, semantically arbitrary small modules ("semantic soup"): fields whose sizes / offsets /
+# conditions, virtual fields and enum values are random expressions over ALL the names of the module in any order
+# (forward references, references across structures, values of the wrong kind), module attributes with values of
+# random kinds.  Dense in exactly the shapes that later passes must reject without falling over.
+# ------------------------------------------------------------------------------------------------
+
+def _soup_expr(r, ctx, depth, ty="int"):
+    """ctx: {"own": [(name, type)] defined before this point (mostly used), "later": [(name, type)] defined later,
+    "static": [(dotted name, type)]}.  Type-directed ("int" / "bool"), with an occasional operand of the wrong kind."""
+    if r.random() < 0.06:
+        ty = "bool" if ty == "int" else "int"
+    if depth <= 0 or r.random() < 0.3:
+        k = r.randrange(20)
+        own = [n for n, t in ctx["own"] if t == ty]
+        later = [n for n, t in ctx["later"] if t == ty]
+        if k < 9 and (own or later):
+            return r.choice(own if (own and (not later or r.random() < 0.85)) else later)
+        if k < 12 or (ty == "bool" and k < 17):
+            if ty == "bool":
+                return r.choice(["true", "false"])
+            return str(r.choice([0, 1, 2, 3, 8, 9, 255, 256, 2 ** 31, 2 ** 32, 2 ** 63, 2 ** 64 - 1, -1]))
+        st = [n for n, t in ctx["static"] if t == ty]
+        if k < 17 and st:
+            return r.choice(st)
+        if ty == "bool" and ctx.get("fields"):
+            return "$present(%s)" % r.choice(ctx["fields"])
+        sp = ctx.get("special")
+        return r.choice(sp) if sp and ty == "int" else ("7" if ty == "int" else "true")
+    k = r.randrange(12)
+    if ty == "int":
+        if k < 6:
+            return "(%s %s %s)" % (_soup_expr(r, ctx, depth - 1), r.choice(["+", "-", "*"]), _soup_expr(r, ctx, depth - 1))
+        if k < 9:
+            return "(%s ? %s : %s)" % (_soup_expr(r, ctx, depth - 1, "bool"), _soup_expr(r, ctx, depth - 1), _soup_expr(r, ctx, depth - 1))
+        if k < 11:
+            return "$max(%s, %s)" % (_soup_expr(r, ctx, depth - 1), _soup_expr(r, ctx, depth - 1))
+        return "%s(%s)" % (r.choice(["$upper_bound", "$lower_bound"]), _soup_expr(r, ctx, depth - 1))
+    if k < 6:
+        return "(%s %s %s)" % (_soup_expr(r, ctx, depth - 1), r.choice(["==", "!=", "<", "<=", ">", ">="]), _soup_expr(r, ctx, depth - 1))
+    if k < 7:
+        e = [n for n, t in ctx["static"] if t == "enum"]
+        return "(%s %s %s)" % (r.choice(e), r.choice(["==", "!="]), r.choice(e))
+    if k < 10:
+        return "(%s %s %s)" % (_soup_expr(r, ctx, depth - 1, "bool"), r.choice(["&&", "||"]), _soup_expr(r, ctx, depth - 1, "bool"))
+    return "(%s ? %s : %s)" % (_soup_expr(r, ctx, depth - 1, "bool"), _soup_expr(r, ctx, depth - 1, "bool"), _soup_expr(r, ctx, depth - 1, "bool"))
+
+
+def gen_semsoup(r):
+    lines = []
+    if r.random() < 0.3:
+        name = r.choice(["expected_back_ends", "(cpp) namespace", "$default byte_order", "(cpp) $default enum_case", "byte_order", "requires",
+                         "(java) namespace", "text_output", "$default requires", "fixed_size_in_bits"])
+        val = r.choice(['"cpp"', '"cpp, java"', "5", "true", "Ee.AA", '""', '"a b"', '"BigEndian"', '"kCamelCase"', "1 + 1", '"cpp,"', '", cpp"'])
+        lines.append("[%s: %s]" % (name, val))
+    if r.random() < 0.9:
+        lines.append('[$default byte_order: "%s"]' % r.choice(["LittleEndian", "BigEndian"]))
+    static = [("Ee.AA", "enum"), ("Ee.BB", "enum"), ("Ff.AA", "enum"), ("Ff.CC", "enum"), ("Ss.v1", "int"), ("Ss.v2", "int"), ("Tt.v1", "int"),
+              ("Ss.f1", "int"), ("Tt.f2", "int"), ("Ss.v3", "bool"), ("Tt.v3", "bool")]
+    for sname in ("Ss", "Tt"):
+        fields, lets = ["f1", "f2", "f3"], ["v1", "v2", "v3"]
+        typ = {"f1": "int", "f2": "int", "f3": "int", "v1": "int", "v2": "int", "v3": "bool", "p1": "int"}
+        order = fields + lets
+        r.shuffle(order)
+        param = r.choice(["", "", "", "(p1: UInt:8)", "(p1: Ee)"])
+        lines.append("struct %s%s:" % (sname, param))
+        tn = lambda xs: [(x, typ[x]) for x in xs]
+        if r.random() < 0.1:
+            lines.append("  [requires: %s]" % _soup_expr(r, {"own": tn(order), "later": [], "static": static, "fields": fields}, 2, "bool"))
+        off = 0
+        spicy = set(r.sample(order, r.choice([1, 1, 2, 2, 3])))
+        for i, n in enumerate(order):
+            ctx = {"own": tn(order[:i] + (["p1"] if param else [])), "later": tn(order[i + 1:]), "static": static,
+                   "fields": [x for x in order[:i] if x in fields]}
+            if n in lets:
+                if n in spicy:
+                    e = _soup_expr(r, ctx, r.choice([1, 2, 2]), typ[n])
+                else:
+                    e = r.choice(["1", "2"]) if typ[n] == "int" else r.choice(["true", "false"])
+                lines.append("  let %s = %s" % (n, e))
+                continue
+            if n in spicy:
+                start = str(off) if r.random() < 0.6 else _soup_expr(r, dict(ctx, special=["$next"] if i else ["0"]), 1)
+                size = r.choice(["1", "2", "4", "8"]) if r.random() < 0.5 else _soup_expr(r, ctx, 1)
+                other = "Tt" if sname == "Ss" else "Ee"
+                ty = r.choice(["UInt", "UInt", "UInt", "Int", "Ee", "Bcd", "Flag", "UInt:8[]", other, "Float", "UInt:8[%s]" % _soup_expr(r, ctx, 1)])
+                if r.random() < 0.25:
+                    lines.append("  if %s:" % _soup_expr(r, ctx, 2, "bool"))
+                    lines.append("    %s [+%s]  %s  %s" % (start, size, ty, n))
+                    ind = "      "
+                else:
+                    lines.append("  %s [+%s]  %s  %s" % (start, size, ty, n))
+                    ind = "    "
+                if r.random() < 0.15:
+                    lines.append("%s[requires: %s]" % (ind, _soup_expr(r, dict(ctx, special=["this"]), 2, "bool")))
+            else:
+                lines.append("  %d [+1]  UInt  %s" % (off, n))
+            off += 8
+    for ename in ("Ee", "Ff"):
+        lines.append("enum %s:" % ename)
+        if r.random() < 0.15:
+            lines.append("  [maximum_bits: %s]" % r.choice(["8", "64", "65", "0", "true", "Ee.AA"]))
+        vals = ["AA", "BB", "CC"]
+        for i, vn in enumerate(vals):
+            if r.random() < 0.75:
+                lines.append("  %s = %d" % (vn, i + 1))
+            else:
+                ctx = {"own": [(x, "int") for x in vals[:i]], "later": [(x, "int") for x in vals[i + 1:]],
+                       "static": [(x, ("int" if t == "enum" else t)) for x, t in static if not x.startswith(ename)] + [("Ee.AA", "enum"), ("Ff.AA", "enum")]}
+                lines.append("  %s = %s" % (vn, _soup_expr(r, ctx, r.choice([0, 1]))))
+    return "\n".join(lines) + "\n"
+
+
+# ------------------------------------------------------------------------------------------------
 # family: diagnostics that cross a module boundary (an error in one file with a note in another; an error
 # that lies wholly in an imported file).  The two files get paddings of different lengths so that a
 # position of one file is (usually) not a position of the other.
